@@ -227,7 +227,7 @@ Section Tokens.
     destruct s as [s0|].
     2: { (* NULL: the empty string *)
       intros p T HT.
-      destruct (ensure_put_prints [ch_quote; ch_quote] 3 0 eq_refl ltac:(cbn; lia) p T HT) as (ok & p' & E & R).
+      destruct (ensure_put_prints [ch_quote; ch_quote] 3 0 eq_refl ltac:(unfold zlen; cbn; lia) p T HT) as (ok & p' & E & R).
       exists ok, p'. split; [|exact R]. rewrite <- E. unfold print_string_ptr.
       destruct (ensure p 3) as [[ok1 p1]| |]; cbn [bind]; try reflexivity.
       destruct ok1; cbn [negb]; [|reflexivity].
@@ -273,7 +273,7 @@ Section Tokens.
       split; [exact F5|]. split; [|reflexivity]. intros _.
       split; [|split; [subst p5 p4; cbn; congruence|split; [subst p5 p4; cbn; lia|]]].
       - exists rest5. destruct B5 as (B5a & B5b). split; [split|].
-        + rewrite B5a. rewrite <- !app_assoc. reflexivity.
+        + rewrite B5a. norm_list. reflexivity.
         + rewrite !zlen_app, !zlen_cons, !zlen_nil in *. lia.
         + subst p5 p4. cbn. lia.
       - subst p5 p4. eapply grown_trans; [exact F1|exact G1|]. destruct G3 as (g1 & g2). split; [cbn; lia|]. cbn. exact g2. }
